@@ -91,7 +91,7 @@ def renameIn (o n : String) (l : List String) : List String := l.map (fun x => i
 
 def exec (refCheck : Bool) (db : DB) : Stmt → Option DB
   | .createTable t _ cols pk =>
-    if db.has t || cols.isEmpty then none else
+    if db.has t then none else      -- a table without columns is accepted (Postgres; sqlize's dump of a table whose columns were all dropped)
     let specs := cols.map colOf
     let names := specs.map (·.1.name)
     let inlinePk := (specs.filter (·.2)).map (·.1.name)
